@@ -18,6 +18,7 @@ def run(ctx: Ctx) -> list[Ob]:
     obs += r11.r11g(ctx)
     obs += r11.r11h(ctx)
     obs += r11.r11j(ctx)
+    obs += r11.r11n(ctx)
     return obs
 
 
@@ -34,6 +35,7 @@ SPEC = PropSpec(
         "'gradients are finite wherever the function value is non-zero'); R11c -- the log-space reduce makes its shift finite."
         " R11j: no evaluation method of a torch-side module or semiring (forward, evaluate, apply_reduce, einsum, ..; not reset_parameters, not sample) switches gradient tracking off (no_grad / set_grad_enabled / inference_mode) or detaches anything but the shift of a stable reduce. R11g: a hand-written backward (ComplexSafeLog) repairs non-finite values only -- no ordering comparison (abs(x) < eps) masks the gradient on an open set. R11h: compile_tensor_parameter passes requires_grad = p.learnable, not restricted through dtype.is_floating_point alone (False for complex dtypes: learnable complex parameters would be compiled frozen)."
         ' R11c add-back: the stable reduce of the log-space semirings adds back what it subtracted -- the sum of the shifts over *all* inputs (func is multilinear in them): a single shared shift added once gives wrong values and, through them, wrong gradients for every product of log-space operands.'
+        " R11n: the logarithm that closes the stable reduce of every log-space semiring is one of the repository's guarded autograd logarithms (safelog / csafelog): torch.log back-propagates 0 / 0 = nan below a unit that evaluates to exactly 0 while the output is non-zero (gradients are finite wherever the function value is non-zero); the real and the complex semiring agree."
     ),
     not_decided=(
         "that gradients equal the true derivatives (numerical: finite differences, autograd semantics); gradients with respect to "
@@ -41,5 +43,5 @@ SPEC = PropSpec(
         "sound syntactic rule exists)."
     ),
     run=run,
-    floors={"R11j": 50, "R1c": 1, "R3d": 3, "R11e": 2, "R11c": 2},
+    floors={"R11n": 2, "R11j": 50, "R1c": 1, "R3d": 3, "R11e": 2, "R11c": 2},
 )
